@@ -333,9 +333,14 @@ class VGen:
         if t == "int":
             return r.choice([-7, -3, -1, 0, 1, 2, 3, 5, 9])
         if t == "float":
+            if getattr(self, "rough", False):
+                # not exactly representable / cancelling: the order and the rounding of every single operation become visible
+                return r.choice([0.1, 0.2, 0.3, 0.7, 1.1, -2.3, 3.3, 0.001, 1e16, -1e16, 1.0, 123456.789])
             return r.randrange(-24, 25) / 4.0
         if is_mat(t):
             n = MATS[t]
+            if getattr(self, "rough", False):
+                return [[self.value("float") for _ in range(n)] for _ in range(n)]
             return [[r.randrange(-12, 13) / 4.0 for _ in range(n)] for _ in range(n)]
         return [self.value(comp(t)) for _ in range(size(t))]
 
@@ -343,10 +348,12 @@ class VGen:
         out = []
         for _ in range(n):
             args = {}
+            self.rough = self.rng.random() < 0.35
             for p, t in params:
                 if p in ("k2", "k3", "k4"):
                     args[p] = self.rng.randrange(int(p[1]))
                 else:
                     args[p] = self.value(t)
             out.append({"fn": "f", "args": args, "globals": {g: self.value(t) for g, t in globs}, "read_globals": [g for g, _ in globs]})
+        self.rough = False
         return out
